@@ -300,7 +300,7 @@ def run(tier, seed):
                  "makes one trace record the input tracers of another")
     from ..kernels import c04_fuse, c04_scope, c04_api_inner, c04_call_nodes
     from ..kernels.base import run_kernel
-    for k in c04_fuse.KERNELS + c04_scope.KERNELS + c04_api_inner.KERNELS + c04_call_nodes.KERNELS:
+    for k in c04_fuse.KERNELS + c04_scope.KERNELS + c04_api_inner.KERNELS + [q for q in c04_call_nodes.KERNELS if q.prop == "C04"]:
         chk.add_kernel(run_kernel(k, tier))
     chk.add_lemmas(tier)
     n = 12 if tier == "quick" else 600
